@@ -1,5 +1,5 @@
 from copy import copy
-from typing import Any, List, Union
+from typing import Any, Dict, List, Union
 
 from vtlengine.DataTypes import (
     SCALAR_TYPES_CLASS_REVERSE,
@@ -73,10 +73,13 @@ class If(Operator):
             return Dataset(name=dataset_name, components=copy(condition.components), data=None)
         if left.get_identifiers() != condition.get_identifiers():
             raise SemanticError("1-1-9-10", op=cls.op, clause=left.name)
+        # Promoted measure types belong to the result: the branches are the datasets stored
+        # for the other statements and keep their own types.
+        promoted: Dict[str, Any] = {}
         if isinstance(right, Scalar):
             for component in left.get_measures():
                 if component.data_type != right.data_type:
-                    component.data_type = binary_implicit_promotion(
+                    promoted[component.name] = binary_implicit_promotion(
                         component.data_type, right.data_type
                     )
         if isinstance(right, Dataset):
@@ -86,11 +89,9 @@ class If(Operator):
                 raise SemanticError("1-1-9-13", op=cls.op, then=left.name, else_clause=right.name)
             for component in left.get_measures():
                 if component.data_type != right.components[component.name].data_type:
-                    component.data_type = right.components[component.name].data_type = (
-                        binary_implicit_promotion(
-                            component.data_type,
-                            right.components[component.name].data_type,
-                        )
+                    promoted[component.name] = binary_implicit_promotion(
+                        component.data_type,
+                        right.components[component.name].data_type,
                     )
         if isinstance(condition, Dataset):
             if len(condition.get_measures()) != 1:
@@ -104,6 +105,8 @@ class If(Operator):
             if left.get_identifiers() != condition.get_identifiers():
                 raise SemanticError("1-1-9-6", op=cls.op)
         result_components = {comp_name: copy(comp) for comp_name, comp in left.components.items()}
+        for comp_name, data_type in promoted.items():
+            result_components[comp_name].data_type = data_type
         return Dataset(name=dataset_name, components=result_components, data=None)
 
 
